@@ -41,14 +41,19 @@ def slipPrice (s : Slip) (isBuy isLimit : Bool) (limitPrice : R) (b : MBar) (pri
     some t2
   | .tickSize rate tick =>
     let p := price + tick * rate * (if isBuy then 1 else -1)
-    if p ≤ 0 then none else some p
+    if p ≤ 0 then none
+    else
+      let t1 := match validPrice b.limitUp with | some u => R.pymin p u | none => p
+      let t2 := match validPrice b.limitDown with | some d => R.pymax t1 d | none => t1
+      some t2
   | .limitPrice => some (if isLimit then limitPrice else price)
 
-/-- `decider.rate` (`none`: the attribute does not exist — LimitPriceSlippage on the current tree, finding F22) -/
+/-- `decider.rate` (`none` would mean the attribute does not exist: that was finding F22 for LimitPriceSlippage, repaired
+by a `fix:` commit — it is 0 now) -/
 def slipRate : Slip → Option R
   | .priceRatio r => some r
   | .tickSize r _ => some r
-  | .limitPrice => none
+  | .limitPrice => some 0
 
 inductive MOutcome
   | rest                                   -- nothing happens, the order stays as it is
